@@ -271,6 +271,9 @@ def cfg_bye(r):
 
 def r_name(r):
     x = r.random()
+    if x < 0.15:
+        # any 7-bit octets, NUL and control characters included (all legal for the builder)
+        return bytes(r.choice([0, 0, 1, 0x20, 0x41, 0x61, 0x7f, r.getrandbits(7)]) for _ in range(r.choice([4, 4, 3, 2, 1])))
     if x < 0.55: return r_ascii(r, 4)
     if x < 0.8: return r_ascii(r, r.randint(0, 3))
     if x < 0.9: return r_ascii(r, r.choice([5, 6, 8]))
@@ -372,6 +375,16 @@ def r_sli(r, in_range=None):
     x = r.random()
     n = 0 if x < 0.08 else 1 if x < 0.4 else r.randint(2, 8)
     ents = []
+    if n >= 2 and r.random() < 0.35:
+        # runs: an entry that continues (or repeats, or overlaps) the previous one, same or other picture
+        f = r.choice([0, 1, 100, 8000, r.getrandbits(12)]); p = r.getrandbits(6)
+        for _ in range(n):
+            c = r.choice([0, 1, 1, 2, 5, 7, 20, 191])
+            ents.append((f & 0x1fff, c, p))
+            y = r.random()
+            f = f + c if y < 0.7 else f if y < 0.8 else f + c + 1 if y < 0.9 else max(0, f + c - 1)
+            if r.random() < 0.2: p = (p + 1) & 63
+        return {"k": "sli", "entries": ents}
     for _ in range(n):
         if in_range is None: ok = r.random() < 0.85
         else: ok = in_range
